@@ -37,6 +37,8 @@ NULLS = [
     (["1234567.5", "1.2345675e6", "+1234567.50"], 1234567.5),
     (["-999.2501", "-9.992501E2"], -999.2501),
     (["-9999999.0", "-9999999.", "-9.999999E6"], -9999999.0),
+    # an integer literal beyond 64 bits (np.int64 overflows; the value is the float)
+    (["-99999999999999999999", "-100000000000000000000", "-1e20"], -1e20),
     (["N/A", "abc", "none", "- 999.25"], None),
     ([None], None),
 ]
